@@ -322,6 +322,10 @@ def build_value(world, dom, name):
     if isinstance(dom, S.Abstract):
         fn = AbstractFn(world, dom, name)
         return fn, Decoder(lambda m: {'$abstract': dom.name})
+    if isinstance(dom, S.Nested):
+        from .pipes import SNested
+        vr = world.verifier
+        return SNested(name, dom.alts), Decoder(lambda m: {'$nested_counter_element': getattr(vr, 'pipe_cex', None)})
     if isinstance(dom, S.Seq):
         from .combinators import build_seq
         return build_seq(world, dom, name)
@@ -516,6 +520,8 @@ class Verifier:
         sub.base_pc = list(outer.pc)
         sub.prefix = outer.fresh_name('s') + '.'
         sub.floor_cache_seed = dict(outer.floor_cache)   # same term -> same floor variable
+        sub.pipe_registry_seed = list(outer.pipe_registry)
+        sub.first_choice_seed = dict(outer.first_choice)
         sub.fork_site = outer.fork_site
         sub.fork_counts = outer.fork_counts
         nbase = len(sub.base_pc)
@@ -850,7 +856,12 @@ class Verifier:
             else:
                 break
         if fa.vararg and fa.vararg.arg in byname:
-            call_args.extend(byname[fa.vararg.arg])
+            from .pipes import SNested
+            v = byname[fa.vararg.arg]
+            if isinstance(v, SNested):
+                call_args.append(v)        # one abstract argument standing for the whole list
+            else:
+                call_args.extend(v)
         for p in fa.kwonlyargs:
             if p.arg in byname:
                 call_kwargs[p.arg] = byname[p.arg]
